@@ -64,8 +64,8 @@ def gen_cases(tier, seed):
         exprs.append((G.expression(r)[1], r.choice(["2021-03-10T12:43", "2024-02-29T23:59", "2019-12-31T00:00"])))
     # clock notations with letters (am/pm, uhr, h, o'clock), named hours, months, weekdays: the places where case could matter
     for cn, (fn, fl) in G.CLOCK.items():
-        for h in (0, 1, 11, 12, 13, 23):
-            for mi in (0, 30):
+        for h in (0, 1, 9, 11, 12, 13, 23):
+            for mi in (0, 30, 7, 37):
                 t = fn(h, mi)
                 if t and any(ch.isalpha() for ch in t) and not (fl.get("exclude") and fl["exclude"](h, mi)):
                     exprs.append((t, "2021-03-10T12:43"))
